@@ -164,9 +164,9 @@ def serial (ops : List Op) (db : Db) : List (Nat × Nat) → Db
     | some op => serial ops (apply db op d) rest
     | none => serial ops db rest
 
-/-- the database the harness starts every C16 case from: rows 1..4 in room 1, field 1 = 0 -/
+/-- the database the harness starts every C16 case from: rows 1..4 in room 1, fields 1 and 2 = 0 -/
 def init : Db :=
-  { rows := fun k => if 1 ≤ k ∧ k ≤ 4 then some { room := 1, vals := [(1, 0)], mdate := 0 } else none,
+  { rows := fun k => if 1 ≤ k ∧ k ≤ 4 then some { room := 1, vals := [(1, 0), (2, 0)], mdate := 0 } else none,
     refs := fun _ => [] }
 
 end Discret.Pipeline
